@@ -1,6 +1,7 @@
 //! Node-level checks (crates p2panda and p2panda-net, hooks enabled).
 use explorer::{Args, Report};
 
+mod c01n;
 mod c02;
 mod c04;
 mod c07;
@@ -21,6 +22,7 @@ fn main() {
     let args = Args::parse();
     explorer::quiet_panics();
     let code = match args.property.as_str() {
+        "C01N" => c01n::run(Report::new(&args, "model_checking")),
         "C02" => c02::run(Report::new(&args, "model_checking")),
         "C04" => c04::run(Report::new(&args, "model_checking")),
         "C07" => c07::run(Report::new(&args, "model_checking")),
